@@ -194,7 +194,7 @@ func init() {
 		ID:          "C08",
 		Level:       "exploration",
 		Technique:   "runtime monitoring: generator-known expectation for every here-document (operator, delimiter word, body bytes, delimiter line, expansion scanning), body text reconstructed with the harness's own unparser; each command parsed under the default scheduler and under both extreme forced schedules of the lexer/parser pair (verif hooks), race detector on",
-		Rule:        "a case is a generated command carrying 1-3 here-documents at any redirection site (prefix/suffix of simple commands, after compound commands and function bodies, inside pipelines, lists, subshells, groups, if/loop conditions and bodies, case items, command substitutions), delimiters plain / 'quoted' / \"quoted\" / \\escaped / partially quoted / multi-byte, << and <<- (with and without tab-indented terminator), 0-4 body lines from pools with empty first lines, delimiter prefixes/suffixes, tab-indented lines, $x ${x:-y} $(c) `c` $((1+2)) \\$ \\\\ quotes and multi-byte text; 3 layouts; canonical layout also under parser-first and lexer-first schedules. distinct_nontrivial = distinct commands with >=1 here-document.",
+		Rule:        "(terminator lines of <<- here-documents are indented by 0, 1 or 2-4 tabs) a case is a generated command carrying 1-3 here-documents at any redirection site (prefix/suffix of simple commands, after compound commands and function bodies, inside pipelines, lists, subshells, groups, if/loop conditions and bodies, case items, command substitutions), delimiters plain / 'quoted' / \"quoted\" / \\escaped / partially quoted / multi-byte, << and <<- (with and without tab-indented terminator), 0-4 body lines from pools with empty first lines, delimiter prefixes/suffixes, tab-indented lines, $x ${x:-y} $(c) `c` $((1+2)) \\$ \\\\ quotes and multi-byte text; 3 layouts; canonical layout also under parser-first and lexer-first schedules. distinct_nontrivial = distinct commands with >=1 here-document.",
 		Assumptions: []string{"a backslash at the end of a body line of an unquoted here-document is a line continuation and is not generated"},
 		Race:        true,
 		Gen:         c08Gen,
